@@ -110,6 +110,8 @@ _MEV_CL = {
     'weight_n_over_k': "pd_setcol_val(PART) == len(self.second_partition[q].subset) / self.second_partition[q].sample_size",
     'requested_size': "pd_sample_n(pd_setcol_base(PART)) == self.second_partition[q].sample_size",
     'drawn_from_stratum': f"same(pd_sample_src(pd_setcol_base(PART)), self.alternatives[{_IDS}.isin(self.second_partition[q].subset)])",
+    # round 3: no alternative twice inside a stratum
+    'without_replacement': "not pd_sample_replace(pd_setcol_base(PART))",
 }
 _MEV_Q = '(' + ' and '.join(_MEV_CL.values()) + ')'
 
@@ -118,6 +120,9 @@ contract(Q + 'SamplingOfAlternatives.sample_mev_alternatives', 'C19', replay=_RE
          modifies=[],
          ensures={
              'one_frame_per_stratum': 'pd_nparts(result) == len(self.second_partition)',
+             # round 3: row labels of the returned sample are the positions 0..n-1 (process_row names the flattened
+             # columns `<col>_<row label>`): the concatenation must renumber
+             'rows_labelled_by_position': 'pd_renumbered(result)',
              **{f'stratum_{k}': 'forall(lambda q: ' + v.replace('PART', 'pd_part(result, q)') + ', 0, len(self.second_partition))'
                 for k, v in _MEV_CL.items()},
          },
@@ -139,6 +144,8 @@ _ALT_CL = {
     # drawn among the alternatives of the stratum, the chosen one excluded (=> no duplicate of the chosen)
     'drawn_from_stratum_without_chosen': f"same(pd_sample_src(pd_setcol_base(PART)), "
                                          f"self.alternatives[pd_isin_without({_IDS}, self.partition[q].subset, chosen)])",
+    # round 3: no alternative twice inside a stratum
+    'without_replacement': "not pd_sample_replace(pd_setcol_base(PART))",
 }
 _ALT_Q = '(' + ' and '.join(_ALT_CL.values()) + ')'
 _SUB = 'pd_part(pd_part(result, 1), q)'
@@ -152,6 +159,9 @@ contract(Q + 'SamplingOfAlternatives.sample_alternatives', 'C19', replay=_REPLAY
          modifies=[],
          ensures={
              'chosen_then_sample': 'pd_nparts(result) == 2',
+             # round 3: the chosen alternative is row 0 and the sampled ones rows 1.. BY LABEL too (ignore_index=True on
+             # the outer concatenation): process_row names the flattened columns `<col>_<row label>`
+             'rows_labelled_by_position': 'pd_renumbered(result)',
              'chosen_first_with_its_correction': f"forall(lambda q: implies(chosen in self.partition[q].subset, "
                                                  f"same(pd_part(result, 0), pd_setcol({_C0}, '_log_proba', {_LP}))), 0, len(self.partition))",
              'chosen_first_unchanged_if_in_no_stratum': f"exists(lambda q: old(chosen in self.partition[q].subset), 0, old(len(self.partition))) "
